@@ -2,7 +2,9 @@ package checks
 
 import (
 	"bytes"
+	"encoding/hex"
 	"fmt"
+	"hash/fnv"
 	"net/http"
 	"net/url"
 	"os"
@@ -27,7 +29,23 @@ func c10PreloadMeta(b string) http.Header {
 		"x-amz-acl", "public-read", "x-amz-storage-class", "STANDARD", "x-amz-tagging", "a=b", "x-amz-website-redirect-location", "/elsewhere")
 }
 
-var c10Preload = []string{"k", "d/x", "d/y", "d/e/z", "other", ".dot/file", "empty", "d/empty0"}
+var c10Preload = append([]string{"k", "d/x", "d/y", "d/e/z", "other", ".dot/file", "empty", "d/empty0"}, c10ShadowVictims()...)
+
+// metaFileName is the name the s3afero backends give the metadata file of a key (flattened key,
+// '-', FNV-128a of the key): a backend-internal name that is also a perfectly legal key.
+func metaFileName(key string) string {
+	h := fnv.New128a()
+	h.Write([]byte(key))
+	flat := strings.NewReplacer("/", "_", `\`, "_").Replace(key)
+	return flat + "-" + hex.EncodeToString(h.Sum(nil))
+}
+
+// c10ShadowVictims are preloaded objects whose keys extend the metadata file name of the
+// never-preloaded keys "ghost" and "spectre/y": an operation addressed to those must leave the
+// victims (body, ETag and every stored header) alone.
+func c10ShadowVictims() []string {
+	return []string{metaFileName("ghost") + ".bak", metaFileName("ghost"), metaFileName("spectre/y") + ".staged", metaFileName("spectre/y") + "/part-1"}
+}
 
 // c10PreloadBody: two of the preloaded objects are zero-length ("folder markers").
 func c10PreloadBody(b, k string) []byte {
@@ -150,6 +168,9 @@ func hostileKeys() []string {
 		"../../metadata/bkt-one/k", ".modtime-resolution", ".gofakes3-uploads", ".gofakes3-uploads/x", "uploads", "uploads/put-1", "../uploads/x", "../../uploads/x",
 		"bkt-two", "bkt-two/k", "bkt-one/k", "d", "d/x/deeper", "d/e", "k/under-a-file", "other/x/y", "empty/under", "d/empty0/under", "empty/a/b",
 		"con", "nul", "é", "é", "ключ", "K", "D/X",
+		// keys whose metadata file name is a prefix of a preloaded key, and keys named like the
+		// metadata files (live and staged) of preloaded keys
+		"ghost", "spectre/y", metaFileName("k"), metaFileName("k") + ".staged", metaFileName("d/x"), "d/" + metaFileName("x"),
 	}
 }
 
@@ -169,6 +190,8 @@ func keyClass(k string) string {
 		return "control"
 	case len(k) >= 255:
 		return "long"
+	case strings.HasPrefix(k, "ghost") || strings.HasPrefix(k, "spectre") || strings.Contains(k, metaFileName("k")) || strings.Contains(k, metaFileName("d/x")) || strings.Contains(k, metaFileName("x")):
+		return "meta-file-name"
 	case strings.HasPrefix(k, "_meta") || strings.HasPrefix(k, "bucket/") || strings.HasPrefix(k, "metadata") || strings.HasPrefix(k, "buckets") || strings.Contains(k, "uploads") || strings.HasPrefix(k, ".modtime"):
 		return "internal-name"
 	case k == "d" || strings.HasPrefix(k, "d/") || strings.HasPrefix(k, "k/") || strings.HasPrefix(k, "other/"):
